@@ -806,7 +806,7 @@ impl<'tcx> TyGenContext<'_, 'tcx> {
                     } else {
                         write!(
                             &mut params,
-                            "{maybe_comma}...appendArrayMap['{lt}AppendArray']",
+                            "{maybe_comma}...(appendArrayMap['{lt}AppendArray'] || [])",
                         )
                         .unwrap();
                     }
